@@ -345,11 +345,13 @@ impl RtpsReaderProxy {
                     RtpsMessageWrite::from_submessages(&[&gap_submessage], guid_prefix);
                 message_writer.write_message(rtps_message.buffer(), self.unicast_locator_list());
 
-                self.set_highest_sent_seq_num(next_unsent_change_seq_num);
-            } else if let Some(cache_change) = changes
-                .iter()
-                .find(|cc| cc.sequence_number == next_unsent_change_seq_num)
-            {
+                // The change that follows the gap is sent in the next iteration
+                self.set_highest_sent_seq_num(gap_end_sequence_number);
+                continue;
+            } else if let Some(cache_change) = changes.iter().find(|cc| {
+                cc.sequence_number == next_unsent_change_seq_num
+                    && next_unsent_change_seq_num > self.first_relevant_sample_seq_num()
+            }) {
                 let number_of_fragments = cache_change
                     .data_value
                     .len()
@@ -443,7 +445,11 @@ impl RtpsReaderProxy {
                         &[&info_dst, &gap_submessage, &heartbeat_submessage],
                         guid_prefix,
                     );
-                    message_writer.write_message(rtps_message.buffer(), self.unicast_locator_list())
+                    message_writer
+                        .write_message(rtps_message.buffer(), self.unicast_locator_list());
+                    // The change that follows the gap is sent in the next iteration
+                    self.set_highest_sent_seq_num(gap_end_sequence_number);
+                    continue;
                 } else {
                     let seq_num_min = changes.iter().map(|cc| cc.sequence_number).min();
                     let seq_num_max = changes.iter().map(|cc| cc.sequence_number).max();
